@@ -15,7 +15,7 @@ Ev == Traces[tid][pos]
 
 TInit == Init /\ tid \in 1..Len(Traces) /\ pos = 1 /\ verdict = "none"
 
-Shape(e) == [reac |-> e.reac, prod |-> e.prod, ireac |-> e.ireac, iprod |-> e.iprod]
+Shape(e) == [reac |-> e.reac, prod |-> e.prod, ireac |-> e.ireac, iprod |-> e.iprod, half |-> e.half]
 
 Step(e) ==
     CASE e.ev = "AddReaction" -> AddReaction(Shape(e), e.kv)
